@@ -40,7 +40,9 @@ RULE = (
     "flate or not, with/without begincmap), Widths/FirstChar/MissingWidth tables (ints, reals, indirect array or "
     "items), FontMatrix, Type 1 header layout (EOL style, comments and strings that look like entries, several "
     "entries per line, flate), font as direct or indirect object, table or stream xref (fonts in object streams), "
-    "font shown again on a later page (font cache), text layout (Tj per code / rows / TJ arrays, hex or literal "
+    "font shown again on a later page (font cache), pages whose /Font dictionary holds 2-3 fonts mixing indirect "
+    "references and inline dictionaries in every order (ID DI DD I= IDI DID II ID= I=D DDI IDD; '=' the same object "
+    "under a second name), each font judged by its own expectation, text layout (Tj per code / rows / TJ arrays, hex or literal "
     "strings, ascending / descending / permuted code order). All 256 codes of every font are shown. One evaluation "
     "= one font (256 code comparisons, counted in codes_text_judged / codes_adv_judged) or one directly driven name / "
     "Differences array; distinct = distinct font cases or names; non-trivial = a font with >=100 judged codes, or "
@@ -63,6 +65,9 @@ ASSUMPTIONS = [
 ]
 SHARD_TIMEOUT = {"quick": 600, "thorough": 3600}
 
+# fonts of one page's /Font dictionary: I = indirect reference, D = inline dictionary, '=' = the previous font again
+MIXED_PATTERNS = ["ID", "DI", "DD", "I=", "IDI", "DID", "II", "ID=", "I=D", "DDI", "IDD"]
+
 FAMILIES = ["base", "diff", "overlap", "tounicode", "widths", "fontfile", "ff_enc", "std14", "t3", "traps", "ff_traps", "ff_std", "std14_tu", "t3_shear"]
 # Features on which a defect was found (and repaired) are generated as their own sub-families, never inside the
 # others: traps / ff_traps (uni/u names of misleading shape), ff_std (/Encoding StandardEncoding def in the Type 1
@@ -77,7 +82,7 @@ def minimums(tier: str) -> Dict[str, int]:
     return {
         "evaluations": 4000 if q else 90000,
         "distinct": 3000 if q else 55000,
-        "fonts": 1300 if q else 50000,
+        "fonts": 1500 if q else 58000,
         "codes_text_judged": 300000 if q else 12000000,
         "codes_adv_judged": 280000 if q else 11000000,
         "type1_header_parser_calls": 200 if q else 8000,
@@ -87,6 +92,12 @@ def minimums(tier: str) -> Dict[str, int]:
         "direct_name2unicode": 2500 if q else 40000,
         "direct_get_encoding": 100 if q else 3000,
         "pages_with_reused_font": 60 if q else 3000,
+        "pages_with_several_fonts": 150 if q else 6000,
+        "font_dict_inline_after_indirect": 50 if q else 2000,
+        "font_dict_indirect_after_inline": 30 if q else 1200,
+        "font_dict_inline_after_inline": 30 if q else 1200,
+        "font_dict_indirect_after_indirect": 10 if q else 400,
+        "font_dict_indirect_after_same_indirect": 25 if q else 1000,
         "seen:subtype": 4,
         "seen:tsrc": 30,
         "seen:wsrc": 11,
@@ -256,20 +267,40 @@ def run_doc(cases: List[Dict[str, Any]], xref: str, pack: bool, rec=None,
     obs = read_pages(data, len(pages_of))
     out: List[Tuple[str, str, int]] = []
     shown: set = set()
-    for pno, i in enumerate(pages_of):
+    # a page entry that is a list holds several fonts (/F1 /F2 ...): its LTChars come in blocks of 256 per font
+    flat: List[Tuple[int, int, Any, str]] = []
+    for pno, ent in enumerate(pages_of):
+        slots = ent if isinstance(ent, list) else [ent]
+        o = obs[pno]
+        if len(slots) > 1 and rec is not None:
+            rec.count("pages_with_several_fonts")
+            for a, b in zip(slots, slots[1:]):
+                rec.count("font_dict_%s_after_%s" % ("inline" if cases[b]["direct"] else "indirect",
+                                                     ("same_indirect" if a == b else "indirect") if not cases[a]["direct"] else "inline"))
+        if isinstance(o, list) and len(slots) > 1:
+            if len(o) != 256 * len(slots):
+                out.append(("char_count", "page %d with %d fonts: %d LTChar objects for %d shown codes"
+                            % (pno, len(slots), len(o), 256 * len(slots)), slots[0]))
+                continue
+            for sl, i in enumerate(slots):
+                flat.append((pno, i, o[256 * sl:256 * (sl + 1)], " as /F%d of %d fonts %s" % (
+                    sl + 1, len(slots), ["inline" if cases[j]["direct"] else "indirect#%d" % j for j in slots])))
+        else:
+            for sl, i in enumerate(slots):
+                flat.append((pno, i, o, ""))
+    for pno, i, obs_i, ctx in flat:
         case = cases[i]
-        if i in shown:  # the same font object on a later page (font cache): same expectation
-            for k, d in judge(case, obs[pno], None):
-                out.append((k, "[page %d, font reused] %s" % (pno, d), i))
+        if i in shown:  # the same font again (later page / second name; font cache for indirect ones): same expectation
+            for k, d in judge(case, obs_i, None):
+                out.append((k, "[page %d, font shown again%s] %s" % (pno, ctx, d), i))
             if rec is not None:
                 rec.count("pages_with_reused_font")
             continue
         shown.add(i)
         stats = {"text": 0, "adv": 0, "text_skipped": 0, "adv_skipped": 0, "tsrc": {}, "wsrc": {}}
-        fails = judge(case, obs[pno], stats)
+        fails = judge(case, obs_i, stats)
         for k, d in fails:
-            out.append((k, d, i))
-        obs_i = obs[pno]
+            out.append((k, ("[page %d%s] " % (pno, ctx) if ctx else "") + d, i))
         if rec is not None:
             rec.case(chash(case), stats["text"] >= 100)
             rec.count("fonts")
@@ -437,6 +468,17 @@ def det_items() -> List[Dict[str, Any]]:
     for e in G.ENC_NAMES + [None]:
         for k in range(3):
             items.append({"doc": [_det_base_case("std14", e, k)]})
+    # every pattern of indirect / inline font dictionaries in one /Font resource dictionary
+    for pi, pat in enumerate(MIXED_PATTERNS):
+        cs, slots, idx = [], [], -1
+        for ch in pat:
+            if ch in "ID":
+                idx += 1
+                c = _det_base_case(["Type1", "TrueType", "Type3", "MMType1"][(pi + idx) % 4], G.ENC_NAMES[(pi + idx) % 3], idx)
+                c["direct"] = ch == "D"
+                cs.append(c)
+            slots.append(idx)
+        items.append({"doc": cs, "pages_of": [slots]})
     names = [n for n in det_names() if n.isascii() and "+" not in n and "-" not in n]
     for c in _det_names_cases(det_names(), "diff", "diff"):
         items.append({"doc": [c]})
@@ -498,6 +540,25 @@ def run_shard(spec: Dict[str, Any], rec) -> None:
                 pages_of += [rng.randrange(len(chunk)) for _ in range(rng.randint(1, 2))]
             run_item({"doc": chunk, "xref": xref, "pack": rng.random() < 0.5, "pages_of": pages_of}, rec)
             i += n
+        # pages whose /Font dictionary mixes indirect and inline font dictionaries, in every order
+        import copy
+
+        def variant(direct: bool) -> Dict[str, Any]:
+            c = copy.deepcopy(rng.choice(cases))
+            c["direct"] = direct
+            return c
+
+        for k in range(spec["per_family"] * 2):
+            pat = MIXED_PATTERNS[k % len(MIXED_PATTERNS)]
+            cs = [variant(ch == "D") for ch in pat if ch in "ID"]
+            idx, slots2 = -1, []  # '=' repeats the previous font: the same object under a second name
+            for ch in pat:
+                if ch in "ID":
+                    idx += 1
+                slots2.append(idx)
+            pages_of = [slots2] if rng.random() < 0.7 else [slots2, rng.randrange(len(cs))]
+            run_item({"doc": cs, "xref": "stream" if rng.random() < 0.3 else "table", "pack": rng.random() < 0.5,
+                      "pages_of": pages_of}, rec)
         # direct drive with random names / Differences
         for _ in range(spec["per_family"] * 12):
             cat, nm = G.glyph_name(rng)
